@@ -32,6 +32,9 @@ type c04Case struct {
 	// Start: explicit start marker (v1 marker / v2 start-after); HasStart distinguishes "" from absent
 	Start    string `json:"start,omitempty"`
 	HasStart bool   `json:"hasStart,omitempty"`
+	// RepeatStart: V2 follow-up requests carry start-after again next to the continuation token
+	// (what the AWS SDK paginators do); the token must win.
+	RepeatStart bool `json:"repeatStart,omitempty"`
 }
 
 type c04Page struct {
@@ -57,6 +60,9 @@ func c04Fetch(st *backends.Stack, cs c04Case, cont string, contKind string, firs
 		q = append(q, "marker", cont)
 	case !first && contKind == "token":
 		q = append(q, "continuation-token", cont)
+		if cs.RepeatStart && cs.HasStart {
+			q = append(q, "start-after", cs.Start)
+		}
 	case first && cs.HasStart && cs.API == "v1":
 		q = append(q, "marker", cs.Start)
 	case first && cs.HasStart:
@@ -389,6 +395,11 @@ func c04Run(t *testing.T, c *evid.Collector) {
 									cs := c04Case{Backend: backends.Mem, Keys: ks, Prefix: p, Delim: d, MaxKeys: mk, API: api, Start: m, HasStart: true}
 									ds, pages, want, straddle := c04Check(b.st, cs)
 									record("walk", cs, ds, pages, len(want), straddle, "exhaustive-start-marker")
+									if api == "v2" && pages >= 2 {
+										cs.RepeatStart = true
+										ds, pages, want, straddle := c04Check(b.st, cs)
+										record("walk", cs, ds, pages, len(want), straddle, "exhaustive-start-marker-repeated")
+									}
 								}
 							}
 						}
@@ -500,6 +511,7 @@ func c04Run(t *testing.T, c *evid.Collector) {
 				pool := append(append([]string(nil), ks...), mk2...)
 				pool = append(pool, "", "zzzz", "a/", "b")
 				cs.Start = rapid.SampledFrom(pool).Draw(rt, "startv")
+				cs.RepeatStart = rapid.Bool().Draw(rt, "repeatstart")
 			}
 			ds, pages, want, straddle := c04Check(st, cs)
 			if record("walk", cs, ds, pages, len(want), straddle, "random") {
